@@ -9,10 +9,49 @@ use crate::model::sx::Sx;
 use crate::model::value::{V, same};
 
 pub fn run_hosted(imp: Impl, text: &str, toks: Option<&[Tok]>, input: &V, state: &HostState, max_steps: usize) -> (Got, Vec<Call>) {
+    run_hosted_mode(imp, false, text, toks, input, state, max_steps)
+}
+
+/// `on_copy` (SimpleGarnishData only): the build-once, copy-per-execution pattern — the program is built into an object
+/// with the callbacks installed, its data marked constant, and the run happens on a `clone_with_aux_without_data` copy
+pub fn run_hosted_mode(imp: Impl, on_copy: bool, text: &str, toks: Option<&[Tok]>, input: &V, state: &HostState, max_steps: usize) -> (Got, Vec<Call>) {
     let parsed = match front_end(text, toks) {
         Ok(p) => p,
         Err(g) => return (g, vec![]),
     };
+    if on_copy && imp == Impl::Simple {
+        use crate::model::pipeline::{RunEnd, build_g, run_program};
+        use garnish_lang_traits::GarnishData;
+        let mut d = new_simple_hosted(state.clone());
+        let b = match build_g(&parsed, &mut d) {
+            Err(p) => return (Got::Panic("build", p.loc), vec![]),
+            Ok(Err(e)) => return (Got::Rejected("build", e), vec![]),
+            Ok(Ok(b)) => b,
+        };
+        let entry = *b.jump_index();
+        let last = d.get_data_len().saturating_sub(1);
+        if d.set_end_of_constant(last).is_err() {
+            return (Got::HarnessError("set_end_of_constant".into()), vec![]);
+        }
+        let mut c = match d.clone_with_aux_without_data() {
+            Ok(c) => c,
+            Err(e) => return (Got::RuntimeError(format!("clone_with_aux_without_data failed: {}", e)), vec![]),
+        };
+        let ia = match crate::model::value::build_value(&mut c, input) {
+            Ok(a) => a,
+            Err(e) => return (Got::HarnessError(format!("cannot build input value: {}", e)), vec![]),
+        };
+        let got = match run_program(&mut c, entry, Some(ia), max_steps) {
+            RunEnd::Finished(_) => match c.get_current_value() {
+                Some(a) => Got::Value(crate::model::value::readback(&c, a)),
+                None => Got::RuntimeError("no current value after the run".into()),
+            },
+            RunEnd::Error(e) => Got::RuntimeError(e),
+            RunEnd::StepLimit => Got::StepLimit,
+            RunEnd::Panic(p) => Got::Panic("run", p.loc),
+        };
+        return (got, c.host().log.clone());
+    }
     match imp {
         Impl::Simple => {
             let mut d = new_simple_hosted(state.clone());
@@ -47,6 +86,10 @@ fn show_trace(t: &[String]) -> String {
 
 /// value and host-call trace must both match the reference
 pub fn judge_hosted(imp: Impl, text: &str, toks: &[Tok], reference: &Sx, input: &V, state: &HostState, used: &mut Vec<&'static str>, externals: &[(usize, Option<i32>)]) -> Verdict {
+    judge_hosted_mode(imp, false, text, toks, reference, input, state, used, externals)
+}
+
+pub fn judge_hosted_mode(imp: Impl, on_copy: bool, text: &str, toks: &[Tok], reference: &Sx, input: &V, state: &HostState, used: &mut Vec<&'static str>, externals: &[(usize, Option<i32>)]) -> Verdict {
     let mut host = reference_host(state);
     // externals: Basic calls the host's apply; SimpleGarnishData has no such hook (every external declines silently)
     static ANSWERS: [fn(&V) -> Option<V>; 4] = [|_| None, |_| Some(V::Int(70)), |_| Some(V::Int(80)), |_| Some(V::Int(90))];
@@ -84,7 +127,7 @@ pub fn judge_hosted(imp: Impl, text: &str, toks: &[Tok], reference: &Sx, input: 
             }
         })
         .collect();
-    let (got, log) = run_hosted(imp, text, Some(toks), input, state, ev.steps * 16 + 256);
+    let (got, log) = run_hosted_mode(imp, on_copy, text, Some(toks), input, state, ev.steps * 16 + 256);
     let got_trace: Vec<String> = log
         .iter()
         .filter_map(|c| match c {
